@@ -9,13 +9,19 @@
     token that was read (or of the lexer for a lexical error), or `"{file}: parse error…"`
     when no token was read;
   * `C06_stray_close_rejected`: `}` with only the global state open is a CxxParseError;
-  * `C06_lexer_error_wrapped`: a lexical error carries the lexer's location.
+  * `C06_lexer_error_wrapped`: a lexical error carries the lexer's location;
+  * `C06_lexer_total`, `C06_stream_total` (`Theorems/LexTotal.lean`, table facts re-decided each
+    run): on the regenerated rules the token loop and the token stream always make progress —
+    `Lexer.token` returns a token, a lexical error or the real end of input, and
+    `token_eof_ok` never ends because the model's bound ran out: for the lexer and the stream
+    the model's `fuel` outcome does not exist, every input is lexed to the end or rejected.
   The remaining rejection rules are sites of the parser model tied by the correspondence and
   searched by the oracle; Python-level exceptions inside helpers are runtime behaviour (named).
 -/
 import CxxModel.Interp
 import CxxModel.Tables
 import CxxModel.Parser.Decl
+import CxxModel.Theorems.LexTotal
 namespace Cxx
 
 theorem C06_runParse_total (env : Env) (hv : env.opts.verbose = false) (filename : String) (content : Str) (p : Prog Unit) :
@@ -57,5 +63,17 @@ theorem C06_stray_close_rejected (env : Env) (w : World) (g : Block) (hg : g.isG
     {α : Type} (k : BlockView → Prog α) :
     interp env (.pop k) w = (w, .error (.parse "INTERNAL ERROR: unbalanced state" none)) := by
   simp [interp, hs, hg]
+
+
+def genCfg6 : LexCfg := { rules := Gen.rules, literals := Gen.literals, ignore := Gen.ignore, keywords := Gen.keywords }
+
+theorem C06_rules_make_progress : RulesProgress genCfg6 = true := by decide +kernel
+
+theorem C06_lexer_total (st : LexState) :
+    plyTokenF genCfg6 st ≠ .opaque ∧ (∀ st', plyTokenF genCfg6 st = .eof st' → st'.rest = []) :=
+  plyTokenF_total genCfg6 C06_rules_make_progress st
+
+theorem C06_stream_total (b : Buf) : tokenEofOk genCfg6 b ≠ .error .fuel :=
+  tokenEofOk_no_fuel genCfg6 C06_rules_make_progress b
 
 end Cxx
